@@ -9,7 +9,7 @@
    times out is cancelled the same way (or nothing changes if the refund fails).
    History level (Proofs/MetaSched.v): after a rollback, as in every reachable state, the model is listed for
    removal exactly where its (restored) lifetime ends (run_meta_scheduled). *)
-From SaoVerif Require Import Base.Prelude Base.Ints Base.Dec Model.Did Model.Types Model.Monad Model.Bank Model.Select Model.Node Model.Storage Model.Sao Model.Hooks Model.App Model.Spec Proofs.Money Proofs.MetaSched.
+From SaoVerif Require Import Base.Prelude Base.Ints Base.Dec Model.Did Model.Types Model.Monad Model.Bank Model.Select Model.Node Model.Storage Model.Sao Model.Hooks Model.App Model.Spec Proofs.Money Proofs.MetaSched Proofs.DataSched.
 From RecordUpdate Require Import RecordUpdate.
 Import RecordSetNotations.
 
@@ -54,3 +54,15 @@ Theorem C05_run_meta_scheduled : forall tr s,
   Forall (fun co : Ctx * Op => height_ok co.1) tr -> Inv_msched s -> Inv_msched (run tr s).
 Proof. first [exact run_meta_scheduled | apply run_meta_scheduled]. Qed.
 Print Assumptions C05_run_meta_scheduled.
+
+(* ... exactly once and the schedule lists nothing else - a rollback or removal leaves no stale entry behind *)
+Theorem C05_run_data_schedule : forall tr s,
+  Forall (fun co : Ctx * Op => height_ok co.1) tr -> Inv_ds s -> Inv_ds (run tr s).
+Proof. first [exact run_data_schedule | apply run_data_schedule]. Qed.
+Print Assumptions C05_run_data_schedule.
+
+Theorem C05_scheduled_entry_is_live : forall tr s h l d,
+  Forall (fun co : Ctx * Op => height_ok co.1) tr -> Inv_ds s ->
+  expdata (run tr s) !! h = Some l -> In d l -> exists m, metas (run tr s) !! d = Some m /\ expiry m = h.
+Proof. first [exact scheduled_entry_is_live | apply scheduled_entry_is_live]. Qed.
+Print Assumptions C05_scheduled_entry_is_live.
